@@ -29,6 +29,7 @@ def run(chk):
     r6(chk, prog)
     r7(chk, prog)
     r8(chk, prog)
+    r9_getters_on_produced_states(chk, prog)
     from . import c11
     with chk.shared():
         c11.r7(chk, prog, prog.module("json_object.c"))   # shared: the sign-encoded string length is decoded before use
@@ -988,3 +989,132 @@ def r8(chk, prog):
     else:
         chk.proven(rid, f.name, "integer node as double", f.entry.term.locstr(), "the stored value itself is converted on %d (tag, value) pairs" % n)
     chk.floor(rid, n, 8, "(tag, value) pairs")
+
+
+# ---------------------------------------------------------------------------
+# R9 the integer getters on every state the setters and the increment can produce
+def r9_getters_on_produced_states(chk, prog):
+    from .. import pe
+    rid = "C10.R9"
+    chk.rule(rid, "the integer getters agree with the node's exact value on every representation the library itself can produce: the "
+                  "(tag, stored value) states are collected by evaluating json_object_set_int64 / json_object_set_uint64 on the boundary "
+                  "values and json_object_int_inc on each of those states with the boundary increments; json_object_get_int, "
+                  "json_object_get_int64 and json_object_get_uint64, evaluated on every collected state, return the denoted value "
+                  "clamped to the result type (a getter may rely on a representation invariant only if every producer keeps it)")
+    m = prog.module("json_object.c")
+    fns = {k: m.functions.get(k) for k in ("json_object_set_int64", "json_object_set_uint64", "json_object_int_inc",
+                                           "json_object_get_int", "json_object_get_int64", "json_object_get_uint64")}
+    chk.require(all(f is not None and not f.is_decl for f in fns.values()), "integer setters / getters not found")
+    tags = m.enumerators("json_object_int_type")
+    T_I, T_U = tags["json_object_int_type_int64"], tags["json_object_int_type_uint64"]
+    types = m.enumerators("json_type")
+    names = m.struct_fields("%struct.json_object_int")
+    chk.require(names and "cint_type" in names and "cint" in names, "layout of struct json_object_int not found")
+    K_TAG, K_VAL = names.index("cint_type"), names.index("cint")
+
+    class NodePE(pe.PE):
+        def should_inline(self, g, instr):
+            return g.internal or (g.module is m and (g.name.startswith("json_object_set_") or g.name.startswith("json_object_get_")))
+
+        def init_mem(self, state, base, path, t):
+            if base == "errno":
+                return pe.C(0)
+            if base != "jso":
+                return pe.TOP
+            q = [x for x in path if x != ("i", 0)]
+            k = 0 if not q else (q[0] if isinstance(q[0], int) else q[0][2] if isinstance(q[0], tuple) and q[0][0] == "f" else None)
+            if not q:
+                return pe.C(types["json_type_int"])
+            if k == K_TAG and len(q) == 1:
+                return pe.C(self.tag0)
+            if k == K_VAL:
+                return pe.C(self.val0)
+            return pe.TOP
+
+        def call_model(self, state, frame, i, args):
+            if i.callee in ("json_abort", "__assert_fail", "abort"):
+                return "STOP"
+            if i.callee == "__errno_location":
+                return ("ptr", "errno", ())
+            return None
+
+    def evaluate(f, tag, val, extra):
+        h = NodePE(prog, max_leaves=40, max_steps=10000)
+        h.tag0 = tag
+        h.val0 = val if val <= I64MAX else val - (1 << 64)
+        leaves = h.run(f, [("ptr", "jso", ())] + extra, pe.State())
+        rets = [lf for lf in leaves if lf.kind == "ret"]
+        if len(rets) != 1 or len([lf for lf in leaves if lf.kind != "stop"]) != 1:
+            return None, None
+        return h, rets[0]
+
+    def state_after(h, lf):
+        t2 = h.load(lf.state, h._gep(("ptr", "jso", ()), [pe.C(0), pe.C(K_TAG)], "%struct.json_object_int"), "i32")
+        v2 = h.load(lf.state, h._gep(("ptr", "jso", ()), [pe.C(0), pe.C(K_VAL)], "%struct.json_object_int"), "i64")
+        if not (pe.is_const(t2) and pe.is_const(v2)) or t2[1] not in (T_I, T_U):
+            return None
+        return (t2[1], v2[1] % (1 << 64))
+
+    def denotes(st):
+        t, raw = st
+        return raw if t == T_U else (raw - (1 << 64) if raw > I64MAX else raw)
+    SV = [I64MIN, -10, -1, 0, 1, 10, (1 << 31) - 1, 1 << 31, I64MAX]
+    UV = [0, 1, 10, I64MAX, 1 << 63, (1 << 63) + 10, U64MAX]
+    INC = [I64MIN, I64MIN + 1, -10, -1, 0, 1, 10, I64MAX]
+    produced = {}
+    skipped = 0
+    for fname, vals in (("json_object_set_int64", SV), ("json_object_set_uint64", UV)):
+        for v in vals:
+            try:
+                h, lf = evaluate(fns[fname], T_I, 0, [pe.C(v if v <= I64MAX else v - (1 << 64))])
+            except Exception:
+                h = None
+            st = state_after(h, lf) if h is not None else None
+            if st is None:
+                skipped += 1
+                continue
+            produced.setdefault(st, "%s(%d)" % (fname, v))
+    for st, how in list(produced.items()):
+        for inc in INC:
+            try:
+                h, lf = evaluate(fns["json_object_int_inc"], st[0], st[1], [pe.C(inc)])
+            except Exception:
+                h = None
+            st2 = state_after(h, lf) if h is not None else None
+            if st2 is None:
+                skipped += 1
+                continue
+            produced.setdefault(st2, "%s, then json_object_int_inc(%d)" % (how, inc))
+    chk.tables["integer_states_produced"] = len(produced)
+    GET = {"json_object_get_int": (-(1 << 31), (1 << 31) - 1, 32), "json_object_get_int64": (I64MIN, I64MAX, 64), "json_object_get_uint64": (0, U64MAX, 64)}
+    n = 0
+    for gname, (lo, hi, bits) in GET.items():
+        f = fns[gname]
+        chk.touched(f)
+        bad = und = None
+        cnt = 0
+        for st, how in sorted(produced.items()):
+            try:
+                h, lf = evaluate(f, st[0], st[1], [])
+            except Exception as e:
+                und = und or "%s: %s" % (how, e)
+                continue
+            if h is None or lf.value is None or not pe.is_const(lf.value):
+                und = und or "after %s: the evaluation does not end in one concrete return" % how
+                continue
+            n += 1
+            cnt += 1
+            want = min(max(denotes(st), lo), hi)
+            if lf.value[1] % (1 << bits) != want % (1 << bits) and bad is None:
+                got = lf.value[1] % (1 << bits)
+                if lo < 0 and got >= 1 << (bits - 1):
+                    got -= 1 << bits
+                bad = ("after %s the node holds %d (stored as %s); %s returns %d instead of %d" %
+                       (how, denotes(st), "int64" if st[0] == T_I else "uint64", gname, got, want))
+        if bad:
+            chk.refuted(rid, gname, "every produced state", f.entry.term.locstr(), bad)
+        elif und:
+            chk.undecided(rid, gname, "every produced state", f.entry.term.locstr(), und)
+        else:
+            chk.proven(rid, gname, "every produced state", f.entry.term.locstr(), "exact or clamped on %d produced (tag, value) states" % cnt)
+    chk.floor(rid, n, 60, "(getter, produced state) evaluations")
